@@ -39,6 +39,11 @@ def judge(case):
     R = _outcome(lambda: cat.run_ref(case, [a.astype(np.float64) if a.dtype.kind == "f" else a.copy() for a in arrays]))
     if R[0] == "ok" and not isinstance(R[1], dict):
         R = ("ok", {"out": R[1]})
+    if op == "dropout" and L[0] == "ok" and R[0] == "ok":
+        # either draw-to-decision rule (keep where u > p, or where u < 1-p) realises the documented distribution
+        RB = _outcome(lambda: cat.run_ref(dict(case, args=dict(case["args"], conv="B")), [a.astype(np.float64) for a in arrays]))
+        if RB[0] == "ok" and np.shape(RB[1]) == np.shape(L[1]["out"]) and np.allclose(np.asarray(L[1]["out"], dtype=np.float64), RB[1], rtol=rt, atol=at):
+            R = ("ok", {"out": RB[1]})
     viol = []
     def v(sym, detail): viol.append({"kind": f"{name}:{sym}", "detail": detail})
     if L[0] == "raise" and R[0] == "ok":
